@@ -59,6 +59,7 @@ package keyed
 //@   opt holds = k.mtx
 //@   ensures keepmap: r.k.routines == old(r.k.routines) && r.k.ctx == old(r.k.ctx) && (forall key: any {r.k.routines[key]} :: in(r.k.routines, key) == old(in(r.k.routines, key)) && r.k.routines[key] == old(r.k.routines[key]))
 //@   ensures keeptimers: forall rr: *runningRoutine {rr.deferRemove} :: rr.deferRemove == old(rr.deferRemove)
+//@   ensures otherretry: forall rr: *runningRoutine {rr.deferRetry} :: rr != r ==> rr.deferRetry == old(rr.deferRetry)
 //@   opt frame = skip
 //@   requires r != nil && r.k != nil && ctx != nil
 //@   requires current: in(r.k.routines, r.key) && r.k.routines[r.key] == r
@@ -181,6 +182,9 @@ package keyed
 //@   loop 2 invariant shrunk: forall key: any {k.routines[key]} :: in(k.routines, key) ==> csold(in(k.routines, key)) || in(routines, key)
 //@   assert unlock 1: addedlist: (forall j: int {added[j]} :: 0 <= j && j < len(added) ==> in(routines, added[j]) && (forall nk: any :: nk == added[j] ==> !csold(in(k.routines, nk)))) && (forall key: any {routines[key]} :: in(routines, key) && !csold(in(k.routines, key)) ==> exists j: int :: 0 <= j && j < len(added) && added[j] == key)
 //@   assert unlock 1: removedlist: (forall j: int {removed[j]} :: 0 <= j && j < len(removed) ==> !in(routines, removed[j]) && (forall nk: any :: nk == removed[j] ==> csold(in(k.routines, nk)))) && (forall key: any {routines[key]} :: csold(in(k.routines, key)) && !in(routines, key) ==> exists j: int :: 0 <= j && j < len(removed) && removed[j] == key)
+//@   loop 1 invariant retrykept[C07]: !restart ==> forall key: any {k.routines[key]} :: csold(in(k.routines, key)) ==> k.routines[key].deferRetry == csold(k.routines[key].deferRetry)
+//@   loop 2 invariant retrykept[C07]: !restart ==> forall key: any {k.routines[key]} :: csold(in(k.routines, key)) && in(routines, key) ==> k.routines[key].deferRetry == csold(k.routines[key].deferRetry)
+//@   assert unlock 1: keepretry[C07]: !restart ==> forall key: any {k.routines[key]} :: csold(in(k.routines, key)) && in(routines, key) ==> k.routines[key].deferRetry == csold(k.routines[key].deferRetry)
 //@   assert unlock 1: requested: forall j: int {keys[j]} :: 0 <= j && j < len(keys) ==> in(k.routines, keys[j]) && k.routines[keys[j]].deferRemove == nil
 //@   assert unlock 1: unrequested: forall key: any {k.routines[key]} :: in(k.routines, key) && !in(routines, key) ==> k.routines[key].deferRemove != nil && k.releaseDelay != 0
 //@   assert unlock 1: nonew: forall key: any {k.routines[key]} :: in(k.routines, key) ==> csold(in(k.routines, key)) || in(routines, key)
